@@ -128,6 +128,8 @@ def make_classifier(g, rd, loop):
         "ARG.default == remove_meta(VAL)": ("eq_default", True),
         "remove_meta(VAL) == ARG.default": ("eq_default", True),
         "ARG.default != remove_meta(VAL)": ("eq_default", False),
+        "self.same_signature(ARG.default, VAL)": ("eq_default", True),
+        "self.same_signature(ARG.default, remove_meta(VAL))": ("eq_default", True),
         "is_ignored(VAL)": ("__is_ignored__", True),
     }
 
@@ -481,6 +483,34 @@ def r8_falsy_defaults_are_defaults(chk: Check):
         chk.require(not bad, chk.fkey(f, "default stored whenever present"), f"`{src(n.ast)}` is executed only under {bad}", loc)
 
 
+def r10_default_by_signature(chk: Check):
+    """`equal to its default` is decided on what the identifier sees: when `==` says different, the hash streams of the default and of the value
+    are compared (meta / generated parameters of a sub-configuration, meta elements at any depth, NaN, a deprecated class do not make a
+    defaulted parameter enter the identifier -- nor make the identifier change when the task is sealed and its paths are generated)"""
+    tree = chk.tree
+    f = tree.func("core.objects", "HashComputer.update")
+    g = CFG(f.node)
+    rd = ReachingDefs(g)
+    loop = arg_loop(g, rd)
+    classify, norm = make_classifier(g, rd, loop)
+    eqs = [n for n in g.live if n.kind == "test" and norm(n) in ("ARG.default == remove_meta(VAL)", "remove_meta(VAL) == ARG.default")]
+    sigs = [n for n in g.live if n.kind == "test" and norm(n).startswith("self.same_signature(ARG.default, ")]
+    loc = chk.loc(f.module, loop.ast)
+    chk.require(bool(sigs), chk.fkey(f, "default test compares signatures"),
+                "the default test of the hasher compares the value with its default by `==` only: a defaulted sub-configuration whose Meta / generated parameters differ "
+                "from the default's (e.g. a path generated at submission) enters the identifier -- the identifier changes when the task is sealed", loc)
+    for e in eqs:
+        fb = [b for b, l in e.succ if l is False]
+        ok = bool(sigs) and all(g.on_every_path(sigs + [loop], start=b, end=g.exit) or any(b.id == s_.id or s_.id in g.reachable(b) for s_ in sigs) for b in fb)
+        chk.require(ok, chk.fkey(f, "signature comparison follows =="), "when `==` fails the signature comparison must decide", loc)
+    ss = tree.funcs.get("core.objects:HashComputer.same_signature")
+    if ss is not None:
+        ups = [c for c in fn_calls(ss.node) if tail(c) == "update"]
+        dig = [c for c in fn_calls(ss.node) if tail(c) == "digest"]
+        chk.require(len(ups) >= 1 and len(dig) >= 1 and any(isinstance(x, ast.Compare) and isinstance(x.ops[0], ast.Eq) for x in ast.walk(ss.node)), chk.fkey(ss, "compares hash streams"),
+                    "same_signature must hash both values with the identifier's own encoder and compare the digests", chk.loc(ss.module, ss.node))
+
+
 def r9_tagged_value_is_the_value(chk: Check):
     """A tag is an annotation of a value: what is stored (and hashed) for `tag(v)` is what is stored for `v` -- the validated, coerced value (= C15.R2)"""
     from .c15 import r2_set_table
@@ -496,6 +526,7 @@ RULES = [
     ("R7", "inherited parameters: the declaration of the first base wins (ChainMap order = MRO), so the default / ignored flags used by the identifier are those of the visible attribute", r7_inherited_argument_precedence),
     ("R6", "configurations reloaded from disk are default-filled by the ordinary constructor before the stored fields are restored (a defaulted parameter added later leaves old identifiers unchanged)", r6_reload_default_filled),
     ("R8", "a declared default is kept whatever its truth value: Argument.__init__ tests defaults for presence (`is None`) only", r8_falsy_defaults_are_defaults),
+    ("R10", "`equal to its default` is decided on signatures when == says different: meta / generated parameters of a defaulted sub-configuration, nested meta elements, NaN, deprecated classes", r10_default_by_signature),
     ("R9", "a tagged value is stored like the plain value: the stored value is the validated one on every path of set() (= C15.R2)", r9_tagged_value_is_the_value),
     ("R5", "the full identifier adds only pre-task and init-task raw identifiers", r5_full_identifier),
 ]
